@@ -1,7 +1,7 @@
 (* C05 — Decoders accept only well-formed COSE of their own type.
    Statements only (copied from coq/theories by bin/mkprops); each proof is `exact <lemma>`. *)
 From Coq Require Import Ascii String ZArith List Bool Permutation.
-From GoCose Require Import Bytes Cbor CborProofs Res GoVal Obs Ecdsa EcdsaProofs Fx Headers Enc Dec Msg HashEnv Key SigVer Run TbsProofs FlowProofs DecProofs KeyProofs HdrProofs EncProofs EncCanon NoPanic Effects.
+From GoCose Require Import Bytes Cbor CborProofs Res GoVal Obs Ecdsa EcdsaProofs Fx Headers Enc Dec Msg HashEnv Key SigVer Run TbsProofs FlowProofs DecProofs KeyProofs HdrProofs EncProofs EncCanon NoPanic Effects MoreProofs.
 From GoCose.Gen Require Import Generated.
 Import ListNotations.
 Open Scope Z_scope.
@@ -115,3 +115,9 @@ Theorem C05_validated_rules :
   (n = c_HeaderLabelCounterSignature0 \/ n = c_HeaderLabelCounterSignature0V2 -> prot = false /\ can_bstr v = true).
 Proof. exact validated_rules. Qed.
 Print Assumptions C05_validated_rules.
+
+(* no duplicate map key at any nesting depth: every map inside a decoded value (header values, nested containers) has pairwise distinct keys under Go equality *)
+Theorem C05_dec_nodup :
+  forall x strip g, dec strip x = Acc g -> gv_nodup g = true.
+Proof. exact dec_nodup. Qed.
+Print Assumptions C05_dec_nodup.
